@@ -14,7 +14,7 @@ Not(a) == [t |-> "not", a |-> a]
 
 \* the public context (the harness builds the same Go values)
 Ctx == [l0 |-> L(<<>>), l1 |-> L(<<I(7)>>), l3 |-> L(<<I(3), I(1), I(2)>>), ls |-> L(<<S(<<"b">>), S(<<"a">>), S(<<"b">>)>>),
-        s0 |-> S(<<>>), s2 |-> S(<<"b", "a">>),
+        s0 |-> S(<<>>), s2 |-> S(<<"b", "a">>), su |-> S(<<"CJK", "EACUTE", "z">>),
         m2 |-> M(<<P(S(<<"a">>), I(1)), P(S(<<"b">>), I(2))>>), m0 |-> M(<<>>),
         z0 |-> S(<<"0">>), n0 |-> I(0), n1 |-> I(1), n2 |-> I(2), bt |-> B(TRUE), bf |-> B(FALSE)]
 
@@ -24,7 +24,7 @@ CondSeq == <<Var(<<"l0">>), Var(<<"l3">>), Var(<<"s0">>), Var(<<"n0">>), Var(<<"
 Conds == {CondSeq[i] : i \in DOMAIN CondSeq}
 
 IterSeq == << [e |-> Var(<<"l0">>), kv |-> FALSE], [e |-> Var(<<"l1">>), kv |-> FALSE], [e |-> Var(<<"l3">>), kv |-> FALSE],
-           [e |-> Var(<<"ls">>), kv |-> FALSE], [e |-> Var(<<"s2">>), kv |-> FALSE], [e |-> Var(<<"s0">>), kv |-> FALSE],
+           [e |-> Var(<<"ls">>), kv |-> FALSE], [e |-> Var(<<"s2">>), kv |-> FALSE], [e |-> Var(<<"s0">>), kv |-> FALSE], [e |-> Var(<<"su">>), kv |-> FALSE],
            [e |-> Var(<<"n1">>), kv |-> FALSE], [e |-> Var(<<"nope">>), kv |-> FALSE],
            [e |-> Var(<<"m2">>), kv |-> TRUE], [e |-> Var(<<"m0">>), kv |-> TRUE] >>
 Iters == {IterSeq[i] : i \in DOMAIN IterSeq}
@@ -91,7 +91,7 @@ Init ==
                        /\ Canon(k1, c1, it1, rv1, so1, el1) /\ Canon(k2, c2, it2, rv2, so2, el2) /\ k1 # "same"
                        /\ prog = << Pick(k2, c2, it2, rv2, so2, el2, Pick(k1, c1, it1, rv1, so1, el1, LeafSeq[lf])) >>
        ELSE IF Family \in {"forfor", "for3"}
-       THEN \E lf \in 1..Len(LeafSeq), it1 \in 1..Len(IterSeq), rv1 \in BOOLEAN, it2 \in {2, 3, 4, 5, 9}, rv2 \in BOOLEAN, it3 \in {3, 5, 9} :
+       THEN \E lf \in 1..Len(LeafSeq), it1 \in 1..Len(IterSeq), rv1 \in BOOLEAN, it2 \in {2, 3, 4, 5, 7, 10}, rv2 \in BOOLEAN, it3 \in {3, 5, 10} :
               LET so(it) == IterSeq[it].kv IN
               LET inner == ForNode(it1, rv1, so(it1), 1, LeafSeq[lf]) IN
               LET mid == [ForNode(it2, rv2, so(it2), 1, inner) EXCEPT !.body = <<inner, T(<<";">>)>>] IN
